@@ -354,13 +354,15 @@ def find_urls(data: bytes) -> list[Node]:
                 group = group[:close]
         if not is_url(group):
             continue
+        url, obfuscation = normalize_percent_encoding(group)
         out.append(
             Node(
                 URL_TYPE,
-                *normalize_percent_encoding(group),
+                url,
+                obfuscation,
                 start,
                 end,
-                children=parse_url(group),
+                children=parse_url(url),  # children index into the node's value, not the raw text
             )
         )
     return out
